@@ -797,3 +797,77 @@ func isPolicyParam(fn *ssa.Function, v ssa.Value) bool {
 	ts := types.TypeString(fn.Params[k].Type(), nil)
 	return strings.HasPrefix(ts, "*") && strings.HasSuffix(ts, "transport.VerifyConfig")
 }
+
+// c01R8: a removed key is gone. The authorized-keys policy accepts a client whose static key is present in
+// SyncAuthKeySet.keySet (the verifier tests presence). Removal therefore has to remove the entry: every
+// returning path of RemoveKey executes delete(keySet, pk) for its own argument, and nothing else than
+// AddKey (insert for its argument), RemoveKey and the constructor writes the map. A RemoveKey that only
+// marks or counts down leaves the key accepted — the delegate key of a consumed grant, for instance.
+func c01R8(c *Ctx) {
+	P := c.P
+	const rule = "C01.R8"
+	c.Rule(rule, "a removed key is gone: every returning path of SyncAuthKeySet.RemoveKey deletes the entry of its argument from keySet (the verifier tests presence), and keySet is written only by AddKey, RemoveKey and the constructor (E1 + E4 who-may-write)")
+	fSet := P.Field("authkeys", "SyncAuthKeySet", "keySet")
+	rm := P.Func("authkeys", "(*SyncAuthKeySet).RemoveKey")
+	if fSet == nil || rm == nil {
+		c.Undecided(rule, "authkeys.(*SyncAuthKeySet).RemoveKey", "function or field not found")
+		return
+	}
+	name := FuncName(rm)
+	c.Analysed(name)
+	fs := newFailSet()
+	n := 0
+	ok := walkAll(c, rule, rm, func(p *Path) {
+		if p.Returns() == nil {
+			return
+		}
+		n++
+		deleted := false
+		p.ForEach(func(i int, ins ssa.Instruction) bool {
+			if call, ok := ins.(*ssa.Call); ok {
+				if b, ok := call.Call.Value.(*ssa.Builtin); ok && b.Name() == "delete" && len(call.Call.Args) == 2 &&
+					lastField(call.Call.Args[0]) == fSet && paramIndex(rm, p.Resolve(call.Call.Args[1], i)) == 1 {
+					deleted = true
+				}
+			}
+			return true
+		})
+		if !deleted {
+			// nothing to delete: the entry was looked up and found absent
+			for key, val := range p.FactsAt(len(p.Blocks) - 1) {
+				if key.op == token.ILLEGAL && !val {
+					if ex, ok := p.Resolve(key.x, len(p.Blocks)-1).(*ssa.Extract); ok && ex.Index == 1 {
+						if lk, ok := ex.Tuple.(*ssa.Lookup); ok && lk.CommaOk && lastField(lk.X) == fSet && paramIndex(rm, lk.Index) == 1 {
+							deleted = true
+						}
+					}
+				}
+			}
+		}
+		if !deleted {
+			fs.add("deletes", "RemoveKey returns without deleting the entry of its argument from the key set: the verifier tests presence, so the removed key keeps passing the authorized-keys policy", p.Exit(), p)
+		}
+	})
+	if ok {
+		fs.report(c, rule, name, []string{"deletes"}, P.Pos(rm.Pos()), fmt.Sprintf("entry deleted on all %d returning paths", n))
+		c.Floor(rule, "returning paths of RemoveKey", n, 1)
+	}
+	// writers of the map
+	allowed := map[string]bool{"authkeys.(*SyncAuthKeySet).AddKey": true, "authkeys.(*SyncAuthKeySet).RemoveKey": true, "authkeys.NewSyncAuthKeySet": true}
+	nw := 0
+	for _, w := range P.FieldWrites(fSet) {
+		nw++
+		okw := allowed[FuncName(w.Fn)]
+		if !okw {
+			for a := range allowed {
+				for _, f := range P.ModuleFuncs("authkeys") {
+					if FuncName(f) == a && P.OwnedBy(w.Fn, f) {
+						okw = true
+					}
+				}
+			}
+		}
+		c.Check(okw, rule, "write:keySet@"+FuncName(w.Fn), P.InstrPos(w.Instr), "written by its accessor", "the authorized-key set is written outside AddKey / RemoveKey / its constructor")
+	}
+	c.Floor(rule, "writes of SyncAuthKeySet.keySet", nw, 2)
+}
